@@ -306,7 +306,27 @@ func (g *gen) arrayHist() {
 
 // ---------- maps ----------
 
-func (g *gen) mapHist() {
+// set of keys k0..k4 as a bit mask (anything else sets bit 20)
+func keyMask(joined string) int64 {
+	var m int64
+	if joined == "" {
+		return 0
+	}
+	for _, k := range strings.Split(joined, ",") {
+		if len(k) == 2 && k[0] == 'k' && k[1] >= '0' && k[1] <= '4' {
+			m += 1 << (k[1] - '0')
+		} else {
+			m += 1 << 20
+		}
+	}
+	return m
+}
+
+func (g *gen) mapHist() { g.mapHistWith(false) }
+
+// swap = true: Go-side mutations that keep the size (delete one key, insert
+// another; replace a value) between repeated enumerations of the same wrapper
+func (g *gen) mapHistWith(swap bool) {
 	r := g.env.Rng
 	m := map[string]int{}
 	var init []string
@@ -320,26 +340,42 @@ func (g *gen) mapHist() {
 	initTxt := fmt.Sprint(m)
 	vm := otto.New()
 	Must(vm.Set("m", m))
+	Must(vm.Set("w", m)) // a second wrapper of the same Go map
 	n := r.Intn(7) + 2
+	if swap {
+		n = r.Intn(6) + 5
+	}
 	var coqOps, obs, txt []string
+	var queue []int // forced operation kinds
 	for j := 0; j < n; j++ {
 		k := r.Intn(5)
 		key := fmt.Sprintf("k%d", k)
 		v := g.histValue()
 		gv := r.Intn(90) + 100
+		x := "m"
+		if r.Intn(4) == 0 {
+			x = "w"
+		}
 		var js, cq, ob, line string
 		assign := false
-		switch r.Intn(9) {
+		kind := r.Intn(13)
+		if swap && len(queue) == 0 && r.Intn(3) == 0 {
+			queue = []int{Pick(r, []int{5, 9, 10, 11}), 20, 21, Pick(r, []int{5, 9, 10, 11}), Pick(r, []int{0, 4, 9, 10, 11})}
+		}
+		if len(queue) > 0 {
+			kind, queue = queue[0], queue[1:]
+		}
+		switch kind {
 		case 0:
-			js, cq = "m."+key, fmt.Sprintf("MJGet %d", k)
+			js, cq = x+"."+key, fmt.Sprintf("MJGet %d", k)
 		case 1, 2:
-			js, cq, assign = fmt.Sprintf("m.%s = %s", key, v.js), fmt.Sprintf("MJSet %d %s", k, v.coq), true
+			js, cq, assign = fmt.Sprintf("%s.%s = %s", x, key, v.js), fmt.Sprintf("MJSet %d %s", k, v.coq), true
 		case 3:
-			js, cq = "delete m."+key, fmt.Sprintf("MJDel %d", k)
+			js, cq = "delete "+x+"."+key, fmt.Sprintf("MJDel %d", k)
 		case 4:
-			js, cq = fmt.Sprintf("'%s' in m", key), fmt.Sprintf("MJHas %d", k)
+			js, cq = fmt.Sprintf("'%s' in %s", key, x), fmt.Sprintf("MJHas %d", k)
 		case 5:
-			js, cq = "Object.keys(m).length", "MJKeys"
+			js, cq = fmt.Sprintf("Object.keys(%s).length", x), "MJKeys"
 		case 6:
 			cq, line = fmt.Sprintf("MGGet %d", k), "Go: read "+key
 			if x, ok := m[key]; ok {
@@ -350,17 +386,55 @@ func (g *gen) mapHist() {
 		case 7:
 			cq, line, ob = fmt.Sprintf("MGSet %d %d", k, gv), fmt.Sprintf("Go: m[%s] = %d", key, gv), "(0, 0)"
 			m[key] = gv
-		default:
+		case 8:
 			if r.Intn(2) == 0 {
 				cq, line, ob = fmt.Sprintf("MGDel %d", k), "Go: delete "+key, "(0, 0)"
 				delete(m, key)
 			} else {
 				cq, line, ob = "MGLen", "Go: len", obNum(int64(len(m)))
 			}
+		case 9:
+			js, cq = fmt.Sprintf("Object.keys(%s).sort().join(',')", x), "MJKeyset"
+		case 10:
+			js, cq = fmt.Sprintf("(function(){var a=[]; for (var k in %s) a.push(k); return a.sort().join(',')})()", x), "MJForIn"
+		case 11:
+			js, cq = fmt.Sprintf("(function(){var t=0; for (var k in %s) t += %s[k]; return t})()", x, x), "MJSum"
+		case 20: // Go deletes a key that is present (if any) ...
+			for kk := 0; kk < 5; kk++ {
+				if _, ok := m[fmt.Sprintf("k%d", (k+kk)%5)]; ok {
+					k = (k + kk) % 5
+					break
+				}
+			}
+			key = fmt.Sprintf("k%d", k)
+			cq, line, ob = fmt.Sprintf("MGDel %d", k), "Go: delete "+key, "(0, 0)"
+			delete(m, key)
+		case 21: // ... and inserts one that is absent: same size, other key set
+			for kk := 0; kk < 5; kk++ {
+				if _, ok := m[fmt.Sprintf("k%d", (k+kk)%5)]; !ok {
+					k = (k + kk) % 5
+					break
+				}
+			}
+			key = fmt.Sprintf("k%d", k)
+			cq, line, ob = fmt.Sprintf("MGSet %d %d", k, gv), fmt.Sprintf("Go: m[%s] = %d", key, gv), "(0, 0)"
+			m[key] = gv
+		default:
+			cq, line = fmt.Sprintf("MGGet %d", k), "Go: read "+key
+			if x, ok := m[key]; ok {
+				ob = obNum(int64(x))
+			} else {
+				ob = obUndef
+			}
 		}
 		if js != "" {
 			o := RunJS(vm, js)
-			ob = obOfOutcome(o, assign)
+			if (kind == 9 || kind == 10) && o.Panic == nil && o.Err == nil && o.Val.IsString() {
+				sv, _ := o.Val.ToString()
+				ob = obNum(keyMask(sv))
+			} else {
+				ob = obOfOutcome(o, assign)
+			}
 			line = js
 			if o.Panic != nil {
 				line += fmt.Sprintf(" [Go panic: %v]", o.Panic)
@@ -374,7 +448,7 @@ func (g *gen) mapHist() {
 		}
 	}
 	g.env.Add(fmt.Sprintf("CMap %s %s %s", Clist(init), Clist(coqOps), Clist(obs)),
-		fmt.Sprintf("map m := map[string]int%s; vm.Set(\"m\", m): %s", initTxt, strings.Join(txt, "; ")), "map", true)
+		fmt.Sprintf("map m := map[string]int%s; vm.Set(\"m\", m); vm.Set(\"w\", m): %s", initTxt, strings.Join(txt, "; ")), "map", true)
 }
 
 // ---------- structs ----------
